@@ -64,6 +64,49 @@ func applyUnifiedDiff(root, patch string) (map[string][]byte, error) {
 			if isNew {
 				start = 0
 			}
+			// Like git apply, accept a hunk whose old lines sit at an offset from the stated line (lines were added or
+			// removed above it since the patch was written): the nearest position at which every old line matches.
+			var oldLines []string
+			for j := i + 1; j < len(lines); j++ {
+				h := lines[j]
+				if strings.HasPrefix(h, "@@") || strings.HasPrefix(h, "diff --git ") || strings.HasPrefix(h, "--- ") {
+					break
+				}
+				if h == "" && j == len(lines)-1 {
+					break
+				}
+				if strings.HasPrefix(h, "\\") {
+					continue
+				}
+				if h == "" {
+					oldLines = append(oldLines, "")
+				} else if h[0] == ' ' || h[0] == '-' {
+					oldLines = append(oldLines, h[1:])
+				}
+			}
+			matchAt := func(at int) bool {
+				if at < pos || at+len(oldLines) > len(src) {
+					return false
+				}
+				for k, ol := range oldLines {
+					if src[at+k] != ol {
+						return false
+					}
+				}
+				return true
+			}
+			if !isNew && len(oldLines) > 0 && !matchAt(start) {
+				for d := 1; d <= len(src); d++ {
+					if matchAt(start - d) {
+						start -= d
+						break
+					}
+					if matchAt(start + d) {
+						start += d
+						break
+					}
+				}
+			}
 			if start < pos || start > len(src) {
 				return nil, fmt.Errorf("%s: hunk at line %d out of order", file, start+1)
 			}
